@@ -240,7 +240,7 @@ def table_call_sites():
                         site = (rel, qual)
                         ok = site in COVERED_SITES or (f in ("os.waitpid", "_waitpid") and qual.startswith("wait_pid"))
                         out.append((f"call site {f} in {rel}:{qual} (line {ch.lineno}) is under contract", ok,
-                                    "" if ok else "signal-delivering call site outside every contract"))
+                                    "" if ok else "signal-delivering call site outside every contract", "coverage"))
                 walk(ch, q)
 
         walk(tree, "")
@@ -267,7 +267,8 @@ def table_no_caching():
         for node in _ast.walk(cls):
             if isinstance(node, _ast.FunctionDef) and node.name in names:
                 decs = [_ast.unparse(d) for d in node.decorator_list]
-                out.append((f"Process.{node.name} is not wrapped by a caching decorator", not decs, f"decorators: {decs}"))
+                caching = [d for d in decs if any(w in d.lower() for w in ("memo", "cache", "lru"))]
+                out.append((f"Process.{node.name} is not wrapped by a caching decorator", not caching, f"decorators: {decs}"))
     return out
 
 
